@@ -1,3 +1,715 @@
 package main
 
-func checkMain(args []string) {}
+import (
+	"encoding/json"
+	"flag"
+	"fmt"
+	"os"
+	"os/exec"
+	"path/filepath"
+	"sort"
+	"strconv"
+	"strings"
+	"time"
+
+	"golang.org/x/tools/go/ssa"
+)
+
+const verifDir = "/verif"
+
+type PropSpec struct {
+	Level       string        `json:"level"`
+	Assumptions []string      `json:"assumptions"`
+	Bounds      []string      `json:"bounds"`
+	Outside     []string      `json:"outside"`
+	Harnesses   []HarnessSpec `json:"harnesses"`
+}
+
+type KnownFinding struct {
+	Property string `json:"property"`
+	Harness  string `json:"harness"` // optional: harness function
+	Label    string `json:"label"`   // assertion label / "panic" / "deadlock" / "data-race"
+	Match    string `json:"match"`   // substring of message or stack identifying the specific failing site/input
+	What     string `json:"what"`
+}
+
+type KnownFile struct {
+	Findings []KnownFinding `json:"findings"`
+	Fixed    []string       `json:"fixed"`
+}
+
+func loadKnown() KnownFile {
+	var k KnownFile
+	b, err := os.ReadFile(filepath.Join(verifDir, "known_findings.json"))
+	if err == nil {
+		json.Unmarshal(b, &k)
+	}
+	return k
+}
+
+func (k KnownFile) match(prop, harness string, v *Violation) *KnownFinding {
+	hay := v.Msg + " " + strings.Join(v.Stack, " ")
+	for i, f := range k.Findings {
+		if f.Property != prop || f.Label != v.Label {
+			continue
+		}
+		if f.Harness != "" && f.Harness != harness {
+			continue
+		}
+		if f.Match != "" && !strings.Contains(hay, f.Match) {
+			continue
+		}
+		return &k.Findings[i]
+	}
+	return nil
+}
+
+type harnessReport struct {
+	Harness      string                       `json:"harness"`
+	Pkg          string                       `json:"pkg"`
+	Note         string                       `json:"note,omitempty"`
+	Opts         ExecOpts                     `json:"options"`
+	Paths        int                          `json:"paths"`
+	Completed    int                          `json:"paths_completed"`
+	Infeasible   int                          `json:"paths_infeasible"`
+	Steps        int                          `json:"ssa_instructions_executed"`
+	Obligations  int                          `json:"assertions_checked"`
+	Discharged   map[string]int               `json:"assertions_discharged_by_label"`
+	Covers       map[string]int               `json:"covers_reached"`
+	Queries      int                          `json:"solver_queries"`
+	Sat          int                          `json:"solver_sat"`
+	Unsat        int                          `json:"solver_unsat"`
+	Unknown      int                          `json:"solver_unknown"`
+	SolverS      float64                      `json:"solver_time_s"`
+	MaxQueryS    float64                      `json:"max_query_s"`
+	WallS        float64                      `json:"wall_s"`
+	OverflowObl  int                          `json:"int_mode_range_obligations,omitempty"`
+	Violations   int                          `json:"violations"`
+	Known        int                          `json:"known_findings"`
+	Errors       []string                     `json:"errors,omitempty"`
+	BoundsHit    []string                     `json:"bounds_exceeded,omitempty"`
+	Inconclusive []string                     `json:"inconclusive,omitempty"`
+	MissingCover []string                     `json:"covers_not_reached,omitempty"`
+	Validated    int                          `json:"cover_models_replayed_natively"`
+	ValidateFail []string                     `json:"native_replay_disagreements,omitempty"`
+}
+
+func checkMain(args []string) {
+	fs := flag.NewFlagSet("check", flag.ExitOnError)
+	tier := fs.String("tier", "quick", "quick|thorough")
+	workers := fs.Int("j", 16, "workers")
+	solver := fs.String("solver", "z3", "primary solver")
+	timeout := fs.Int("solver-timeout", 30000, "per-query timeout ms")
+	replayDir := fs.String("replay", "", "re-run a recorded counterexample directory")
+	only := fs.String("only", "", "run only this harness")
+	noValidate := fs.Bool("no-validate", false, "skip native replay of cover models")
+	if len(args) < 1 {
+		fmt.Println("usage: vcheck <property> [--tier quick|thorough] | vcheck dev ...")
+		os.Exit(2)
+	}
+	prop := args[0]
+	fs.Parse(args[1:])
+	if t := os.Getenv("VERIF_TIER"); t != "" && !flagSet(fs, "tier") {
+		*tier = t
+	}
+	seed := 0
+	if s := os.Getenv("VERIF_SEED"); s != "" {
+		seed, _ = strconv.Atoi(s)
+	}
+	if *replayDir != "" {
+		os.Exit(replayRecorded(*replayDir))
+	}
+	t0 := time.Now()
+
+	var reg map[string]PropSpec
+	b, err := os.ReadFile(filepath.Join(verifDir, "harness", "registry.json"))
+	if err != nil {
+		fmt.Println("cannot read registry:", err)
+		os.Exit(2)
+	}
+	if err := json.Unmarshal(b, &reg); err != nil {
+		fmt.Println("bad registry:", err)
+		os.Exit(2)
+	}
+	ps, ok := reg[prop]
+	if !ok {
+		fmt.Println("unknown property", prop)
+		os.Exit(2)
+	}
+	var specs []HarnessSpec
+	pkgSet := map[string]bool{}
+	for _, h := range ps.Harnesses {
+		if *only != "" && h.Func != *only {
+			continue
+		}
+		if h.Tier == "thorough" && *tier != "thorough" {
+			continue
+		}
+		if h.Tier == "quick-only" && *tier != "quick" {
+			continue
+		}
+		specs = append(specs, h)
+		pkgSet[h.Pkg] = true
+	}
+	var patterns []string
+	for p := range pkgSet {
+		patterns = append(patterns, "./"+p)
+	}
+	sort.Strings(patterns)
+	P, _, overlayFiles, err := LoadProgram(filepath.Join(verifDir, "harness"), patterns)
+	if err != nil {
+		fmt.Printf("ERROR property=%s harness does not load against the current tree: %v\n", prop, err)
+		writeEvidence(prop, *tier, seed, ps, nil, time.Since(t0), 0, []string{"load error: " + err.Error()}, nil)
+		os.Exit(2)
+	}
+	loadS := time.Since(t0).Seconds()
+	known := loadKnown()
+
+	var reports []*harnessReport
+	exit := 0
+	nviol := 0
+	var samples []interface{}
+	funcsEncoded := map[string]int{}
+	stubsUsed := map[string]int{}
+	seenViol := map[string]bool{}
+	for _, h := range specs {
+		pkg := P.pkgs[P.modPath+"/"+h.Pkg]
+		if pkg == nil {
+			fmt.Printf("ERROR property=%s package %s not loaded\n", prop, h.Pkg)
+			exit = 3
+			continue
+		}
+		st := Explore(P, pkg, h, *workers, *solver, *timeout)
+		r := &harnessReport{Harness: h.Func, Pkg: h.Pkg, Note: h.Note, Opts: h.Opts, Paths: st.Paths, Completed: st.Completed, Infeasible: st.Infeasible,
+			Steps: st.Steps, Obligations: st.AssertsTotal, Discharged: st.Asserts, Covers: st.Covers,
+			Queries: st.Solver.Queries, Sat: st.Solver.Sat, Unsat: st.Solver.Unsat, Unknown: st.Solver.Unknown,
+			SolverS: st.Solver.Time.Seconds(), MaxQueryS: st.Solver.MaxQuery.Seconds(), WallS: st.Wall.Seconds(), OverflowObl: st.OverflowObl,
+			Errors: dedupe(st.Errors, 5), BoundsHit: dedupe(st.Bounds, 5), Inconclusive: dedupe(st.Inconclusive, 5)}
+		reports = append(reports, r)
+		for k, v := range st.Funcs {
+			funcsEncoded[k] += v
+		}
+		for k, v := range st.Stubs {
+			stubsUsed[k] += v
+		}
+		for _, s := range st.Samples {
+			if len(samples) < 6 {
+				s["harness"] = h.Func
+				samples = append(samples, s)
+			}
+		}
+		// vacuity: covers named in the harness body must be reachable
+		for _, c := range requiredCovers(pkg.Func(h.Func)) {
+			if st.Covers[c] == 0 {
+				r.MissingCover = append(r.MissingCover, c)
+			}
+		}
+		if st.MaxPathHit {
+			r.BoundsHit = append(r.BoundsHit, fmt.Sprintf("path budget %d exhausted", h.MaxPaths))
+		}
+		if len(st.Errors) > 0 || len(st.Bounds) > 0 || len(st.Inconclusive) > 0 || st.MaxPathHit {
+			for _, e := range r.Errors {
+				fmt.Printf("ERROR property=%s %s\n", prop, e)
+			}
+			for _, e := range r.BoundsHit {
+				fmt.Printf("BOUND property=%s %s\n", prop, e)
+			}
+			for _, e := range r.Inconclusive {
+				fmt.Printf("INCONCLUSIVE property=%s %s\n", prop, e)
+			}
+			if exit == 0 {
+				exit = 3
+			}
+		}
+		if st.Completed == 0 && len(st.Violations) == 0 {
+			fmt.Printf("ERROR property=%s harness %s is vacuous: no path completed\n", prop, h.Func)
+			if exit == 0 {
+				exit = 3
+			}
+		}
+		if len(r.MissingCover) > 0 && len(st.Violations) == 0 {
+			fmt.Printf("WARNING property=%s harness %s: covers not reached: %v\n", prop, h.Func, r.MissingCover)
+		}
+		// violations: one report per (harness, label, site)
+		sort.Slice(st.Violations, func(i, j int) bool { return len(st.Violations[i].Prefix) < len(st.Violations[j].Prefix) })
+		for _, v := range st.Violations {
+			site := ""
+			if len(v.Stack) > 0 {
+				site = v.Stack[0]
+			}
+			key := h.Func + "|" + v.Label + "|" + v.Kind + "|" + site
+			if v.Kind == "deadlock" || v.Kind == "race" {
+				key = h.Func + "|" + v.Label + "|" + v.Msg
+			}
+			if seenViol[key] {
+				continue
+			}
+			seenViol[key] = true
+			if kf := known.match(prop, h.Func, v); kf != nil {
+				r.Known++
+				fmt.Printf("KNOWN-FINDING: property=%s %s [%s %s]\n", prop, kf.What, h.Func, v.Label)
+				continue
+			}
+			dir := recordReplay(prop, h, v, overlayFiles, pkg)
+			status, detail := confirmReplay(dir, h, v)
+			switch status {
+			case "confirmed":
+				r.Violations++
+				nviol++
+				fmt.Printf("VIOLATION property=%s replay=%s\n", prop, dir)
+				fmt.Printf("  harness=%s kind=%s label=%s\n  %s\n  %s\n", h.Func, v.Kind, v.Label, v.Msg, detail)
+				if len(v.Stack) > 0 {
+					fmt.Printf("  at %s\n", strings.Join(firstN(v.Stack, 5), "\n     "))
+				}
+				exit = 1
+			default:
+				fmt.Printf("ENCODING-MISMATCH property=%s harness=%s label=%s: solver model does not reproduce natively (%s); replay=%s\n", prop, h.Func, v.Label, detail, dir)
+				r.Errors = append(r.Errors, "encoding mismatch: "+v.Label+": "+detail)
+				if exit == 0 {
+					exit = 3
+				}
+			}
+		}
+		// translator validation: replay cover models natively
+		if !*noValidate && len(st.CoverModels) > 0 && len(st.Violations) == 0 && !h.Opts.Schedule {
+			okN, fails := validateCovers(prop, h, st.CoverModels, overlayFiles, pkg)
+			r.Validated = okN
+			r.ValidateFail = fails
+			for _, f := range fails {
+				fmt.Printf("ENCODING-MISMATCH property=%s harness=%s cover replay: %s\n", prop, h.Func, f)
+				if exit == 0 {
+					exit = 3
+				}
+			}
+		}
+	}
+	extra := map[string]interface{}{
+		"load_s":            loadS,
+		"functions_encoded": topFuncs(funcsEncoded, P.modPath),
+		"stubs_used":        stubsUsed,
+		"harnesses":         reports,
+		"solver":            *solver,
+		"samples":           samples,
+	}
+	var errs []string
+	if exit == 3 {
+		errs = append(errs, "run inconclusive (see harness reports)")
+	}
+	writeEvidence(prop, *tier, seed, ps, extra, time.Since(t0), nviol, errs, reports)
+	if exit == 0 {
+		fmt.Printf("OK property=%s tier=%s harnesses=%d wall=%.1fs\n", prop, *tier, len(specs), time.Since(t0).Seconds())
+	}
+	os.Exit(exit)
+}
+
+func flagSet(fs *flag.FlagSet, name string) bool {
+	set := false
+	fs.Visit(func(f *flag.Flag) {
+		if f.Name == name {
+			set = true
+		}
+	})
+	return set
+}
+
+func dedupe(ss []string, n int) []string {
+	seen := map[string]bool{}
+	var out []string
+	for _, s := range ss {
+		k := s
+		if i := strings.Index(k, " decisions="); i > 0 {
+			k = k[:i]
+		}
+		if !seen[k] {
+			seen[k] = true
+			out = append(out, s)
+		}
+		if len(out) >= n {
+			break
+		}
+	}
+	return out
+}
+
+func topFuncs(m map[string]int, mod string) []map[string]interface{} {
+	type kv struct {
+		k string
+		v int
+	}
+	var l []kv
+	for k, v := range m {
+		if strings.Contains(k, mod) && !strings.Contains(k, "/internal/vnd") && !strings.Contains(k, "Verif") && !strings.Contains(k, "/internal/vstub") {
+			l = append(l, kv{k, v})
+		}
+	}
+	sort.Slice(l, func(i, j int) bool { return l[i].v > l[j].v })
+	var out []map[string]interface{}
+	for _, x := range l {
+		out = append(out, map[string]interface{}{"function": x.k, "instructions_executed": x.v})
+	}
+	return out
+}
+
+func requiredCovers(fn *ssa.Function) []string {
+	if fn == nil {
+		return nil
+	}
+	var out []string
+	seen := map[string]bool{}
+	var visit func(f *ssa.Function)
+	visit = func(f *ssa.Function) {
+		for _, b := range f.Blocks {
+			for _, in := range b.Instrs {
+				if c, ok := in.(*ssa.Call); ok {
+					if callee := c.Call.StaticCallee(); callee != nil && callee.Name() == "Cover" && callee.Pkg != nil && strings.HasSuffix(callee.Pkg.Pkg.Path(), "internal/vnd") {
+						if k, ok := c.Call.Args[0].(*ssa.Const); ok {
+							s := strings.Trim(k.Value.ExactString(), "\"")
+							if !seen[s] {
+								seen[s] = true
+								out = append(out, s)
+							}
+						}
+					}
+				}
+			}
+		}
+		for _, a := range f.AnonFuncs {
+			visit(a)
+		}
+	}
+	visit(fn)
+	return out
+}
+
+func writeEvidence(prop, tier string, seed int, ps PropSpec, extra map[string]interface{}, wall time.Duration, nviol int, errs []string, reports []*harnessReport) {
+	states, trans, obl, validated, queries := 0, 0, 0, 0, 0
+	var solverS float64
+	for _, r := range reports {
+		states += r.Completed
+		trans += r.Steps
+		obl += r.Obligations
+		validated += r.Validated
+		queries += r.Queries
+		solverS += r.SolverS
+	}
+	cov := map[string]interface{}{
+		"states":                        states,
+		"transitions":                   trans,
+		"traces_validated_against_impl": validated,
+		"obligations":                   obl,
+		"solver_queries":                queries,
+		"solver_time_s":                 solverS,
+		"bounds":                        ps.Bounds,
+		"outside_the_claim":             ps.Outside,
+		"explanation":                   "states = symbolic paths of the harnesses completed (each path stands for all inputs satisfying its path condition); transitions = SSA instructions symbolically executed; obligations = assertion instances discharged by the SMT solver (unsat of path-condition ∧ ¬assertion); traces_validated_against_impl = solver models of reachability witnesses replayed against the natively compiled code with agreeing outcome",
+		"exhaustive":                    false,
+	}
+	for k, v := range extra {
+		cov[k] = v
+	}
+	if _, ok := cov["samples"]; !ok || cov["samples"] == nil || len(cov["samples"].([]interface{})) == 0 {
+		cov["samples"] = []interface{}{map[string]interface{}{"note": "no completed path sampled", "errors": errs}}
+	}
+	if states == 0 {
+		cov["states"] = 0
+	}
+	level := ps.Level
+	if level == "" {
+		level = "model_checking"
+	}
+	ev := map[string]interface{}{
+		"property_id": prop,
+		"tier":        tier,
+		"seed":        seed,
+		"level":       level,
+		"coverage":    cov,
+		"assumptions": append(append([]string{}, ps.Assumptions...), "environment stubs per DESIGN.md §2.5", "bounded: see coverage.bounds"),
+		"wall_s":      wall.Seconds(),
+		"violations":  nviol,
+	}
+	if len(errs) > 0 {
+		ev["errors"] = errs
+	}
+	os.MkdirAll(filepath.Join(verifDir, "evidence"), 0o755)
+	b, _ := json.MarshalIndent(ev, "", " ")
+	os.WriteFile(filepath.Join(verifDir, "evidence", prop+".json"), b, 0o644)
+}
+
+// ---------------------------------------------------------------------------
+// replay
+
+type replayVector struct {
+	Property  string            `json:"property"`
+	Pkg       string            `json:"pkg"`
+	Harness   string            `json:"harness"`
+	Kind      string            `json:"kind"`
+	Label     string            `json:"label"`
+	Msg       string            `json:"msg"`
+	Model     map[string]string `json:"model"`
+	Decisions []int             `json:"decisions"`
+	Stack     []string          `json:"stack"`
+	Opts      ExecOpts          `json:"opts"`
+}
+
+func harnessFuncs(pkg *ssa.Package) []string {
+	var out []string
+	for name, m := range pkg.Members {
+		if f, ok := m.(*ssa.Function); ok && strings.HasPrefix(name, "Verif") && !strings.HasPrefix(name, "VerifStub_") && f.Signature.Params().Len() == 0 && f.Signature.Results().Len() == 0 {
+			out = append(out, name)
+		}
+	}
+	sort.Strings(out)
+	return out
+}
+
+func writeReplayFiles(dir string, pkg *ssa.Package, pkgRel string, overlayFiles map[string]string) {
+	os.MkdirAll(dir, 0o755)
+	var sb strings.Builder
+	fmt.Fprintf(&sb, "//go:build verif\n\npackage %s\n\nimport (\n\t\"bufio\"\n\t\"fmt\"\n\t\"os\"\n\t\"strings\"\n\t\"testing\"\n\n\t\"github.com/attestantio/vouch/internal/vnd\"\n)\n\n", pkg.Pkg.Name())
+	sb.WriteString("var verifHarnesses = map[string]func(){\n")
+	for _, h := range harnessFuncs(pkg) {
+		fmt.Fprintf(&sb, "\t%q: %s,\n", h, h)
+	}
+	sb.WriteString("}\n\n")
+	sb.WriteString(`// TestVerifReplay re-runs harnesses natively on recorded vectors.
+// VND_BATCH names a file with lines "<harness> <vector.json>"; otherwise
+// VND_HARNESS / VND_REPLAY name a single run.
+func TestVerifReplay(t *testing.T) {
+	run := func(h, vec string) (status string) {
+		defer func() {
+			if r := recover(); r != nil {
+				status = fmt.Sprintf("PANIC %v", r)
+			}
+		}()
+		os.Setenv("VND_REPLAY", vec)
+		vnd.ResetAndLoad()
+		verifHarnesses[h]()
+		var cov []string
+		for c := range vnd.Covered {
+			cov = append(cov, c)
+		}
+		return "PASS covered=" + strings.Join(cov, ",")
+	}
+	if b := os.Getenv("VND_BATCH"); b != "" {
+		f, err := os.Open(b)
+		if err != nil {
+			t.Fatal(err)
+		}
+		sc := bufio.NewScanner(f)
+		i := 0
+		for sc.Scan() {
+			parts := strings.Fields(sc.Text())
+			if len(parts) != 2 {
+				continue
+			}
+			fmt.Printf("VND-RESULT %d %s\n", i, run(parts[0], parts[1]))
+			i++
+		}
+		return
+	}
+	h := os.Getenv("VND_HARNESS")
+	if verifHarnesses[h] == nil {
+		t.Fatalf("unknown harness %q", h)
+	}
+	os.Setenv("VND_REPLAY", os.Getenv("VND_REPLAY"))
+	vnd.ResetAndLoad()
+	verifHarnesses[h]()
+	fmt.Println("VND-RESULT 0 PASS")
+}
+`)
+	testFile := filepath.Join(dir, "replay_test.go")
+	os.WriteFile(testFile, []byte(sb.String()), 0o644)
+	ov := map[string]map[string]string{"Replace": {}}
+	for virt, real := range overlayFiles {
+		ov["Replace"][virt] = real
+	}
+	ov["Replace"][filepath.Join(repoDir, pkgRel, "zz_verif_replay_test.go")] = testFile
+	b, _ := json.MarshalIndent(ov, "", " ")
+	os.WriteFile(filepath.Join(dir, "overlay.json"), b, 0o644)
+}
+
+func recordReplay(prop string, h HarnessSpec, v *Violation, overlayFiles map[string]string, pkg *ssa.Package) string {
+	site := v.Label
+	site = strings.Map(func(r rune) rune {
+		if (r >= 'a' && r <= 'z') || (r >= 'A' && r <= 'Z') || (r >= '0' && r <= '9') || r == '.' || r == '-' || r == '_' {
+			return r
+		}
+		return '_'
+	}, site)
+	dir := filepath.Join(verifDir, "replays", prop, h.Func+"-"+site)
+	for i := 1; ; i++ {
+		if _, err := os.Stat(dir); err != nil {
+			break
+		}
+		os.RemoveAll(dir)
+	}
+	writeReplayFiles(dir, pkg, h.Pkg, overlayFiles)
+	vec := replayVector{Property: prop, Pkg: h.Pkg, Harness: h.Func, Kind: v.Kind, Label: v.Label, Msg: v.Msg, Model: v.Model, Decisions: v.Prefix, Stack: v.Stack, Opts: h.Opts}
+	b, _ := json.MarshalIndent(vec, "", " ")
+	os.WriteFile(filepath.Join(dir, "vector.json"), b, 0o644)
+	script := fmt.Sprintf("#!/bin/sh\n# native replay of the counterexample against the real code\ncd /repo && VND_HARNESS=%s VND_REPLAY=%s/vector.json GOFLAGS=-mod=mod GOPROXY=off GOSUMDB=off GOTOOLCHAIN=local timeout 300 go test -tags verif -vet=off -count=1 -overlay %s/overlay.json -run 'TestVerifReplay$' -v ./%s\n", h.Func, dir, dir, h.Pkg)
+	os.WriteFile(filepath.Join(dir, "replay.sh"), []byte(script), 0o755)
+	return dir
+}
+
+func runNative(dir, pkgRel string, env []string) (string, error) {
+	cmd := exec.Command("timeout", "600", "go", "test", "-tags", "verif", "-vet=off", "-count=1", "-overlay", filepath.Join(dir, "overlay.json"), "-run", "TestVerifReplay$", "-v", "./"+pkgRel)
+	cmd.Dir = repoDir
+	cmd.Env = append(os.Environ(), "GOFLAGS=-mod=mod", "GOPROXY=off", "GOSUMDB=off", "GOTOOLCHAIN=local")
+	cmd.Env = append(cmd.Env, env...)
+	out, err := cmd.CombinedOutput()
+	return string(out), err
+}
+
+// confirmReplay runs the counterexample against the natively compiled code.
+func confirmReplay(dir string, h HarnessSpec, v *Violation) (string, string) {
+	if v.Kind == "deadlock" || v.Kind == "race" || h.Opts.Schedule {
+		// schedule-dependent: the Go runtime cannot be forced onto the recorded
+		// interleaving; the replay is the deterministic re-execution of the
+		// recorded decision sequence by the engine (vcheck <prop> --replay <dir>).
+		return "confirmed", "schedule counterexample: deterministic engine replay of the recorded decisions (" + fmt.Sprint(len(v.Prefix)) + " decisions)"
+	}
+	out, _ := runNative(dir, h.Pkg, []string{"VND_HARNESS=" + h.Func, "VND_REPLAY=" + filepath.Join(dir, "vector.json")})
+	os.WriteFile(filepath.Join(dir, "native_output.txt"), []byte(out), 0o644)
+	switch v.Kind {
+	case "assert":
+		if strings.Contains(out, "VND-ASSERT-FAIL "+v.Label) {
+			return "confirmed", "native replay fails the same assertion"
+		}
+		if strings.Contains(out, "VND-ASSERT-FAIL") {
+			return "confirmed", "native replay fails an assertion of the same harness: " + grepLine(out, "VND-ASSERT-FAIL")
+		}
+		if strings.Contains(out, "panic:") && !strings.Contains(out, "VND-ASSUME-FAIL") {
+			return "confirmed", "native replay panics: " + grepLine(out, "panic:")
+		}
+	case "panic":
+		if strings.Contains(out, "panic:") && !strings.Contains(out, "VND-ASSUME-FAIL") && !strings.Contains(out, "VND-ASSERT-FAIL") {
+			return "confirmed", "native replay panics: " + grepLine(out, "panic:")
+		}
+		if strings.Contains(out, "VND-ASSERT-FAIL") {
+			return "confirmed", "native replay fails: " + grepLine(out, "VND-ASSERT-FAIL")
+		}
+	}
+	if strings.Contains(out, "VND-ASSUME-FAIL") {
+		return "mismatch", "native run violates a harness assumption"
+	}
+	if strings.Contains(out, "VND-RESULT 0 PASS") {
+		return "mismatch", "native run passes"
+	}
+	return "mismatch", "native run inconclusive: " + clip(lastLines(out, 6), 600)
+}
+
+func grepLine(out, pat string) string {
+	for _, l := range strings.Split(out, "\n") {
+		if strings.Contains(l, pat) {
+			return clip(strings.TrimSpace(l), 300)
+		}
+	}
+	return ""
+}
+
+func lastLines(s string, n int) string {
+	ls := strings.Split(strings.TrimSpace(s), "\n")
+	if len(ls) > n {
+		ls = ls[len(ls)-n:]
+	}
+	return strings.Join(ls, " | ")
+}
+
+// validateCovers replays each reachability-witness model natively and checks
+// that the native run completes without assertion failure and reaches the
+// same cover label (Serval-style validation of the encoder and stubs).
+func validateCovers(prop string, h HarnessSpec, models map[string]map[string]string, overlayFiles map[string]string, pkg *ssa.Package) (int, []string) {
+	dir := filepath.Join(os.TempDir(), fmt.Sprintf("vcheck-validate-%s-%s-%d", prop, h.Func, os.Getpid()))
+	defer os.RemoveAll(dir)
+	writeReplayFiles(dir, pkg, h.Pkg, overlayFiles)
+	var labels []string
+	for l := range models {
+		labels = append(labels, l)
+	}
+	sort.Strings(labels)
+	var batch strings.Builder
+	for i, l := range labels {
+		vec := replayVector{Property: prop, Pkg: h.Pkg, Harness: h.Func, Kind: "cover", Label: l, Model: models[l]}
+		b, _ := json.Marshal(vec)
+		p := filepath.Join(dir, fmt.Sprintf("cover%d.json", i))
+		os.WriteFile(p, b, 0o644)
+		fmt.Fprintf(&batch, "%s %s\n", h.Func, p)
+	}
+	bf := filepath.Join(dir, "batch.txt")
+	os.WriteFile(bf, []byte(batch.String()), 0o644)
+	out, _ := runNative(dir, h.Pkg, []string{"VND_BATCH=" + bf})
+	okN := 0
+	var fails []string
+	for i, l := range labels {
+		line := grepLine(out, fmt.Sprintf("VND-RESULT %d ", i))
+		switch {
+		case line == "":
+			fails = append(fails, fmt.Sprintf("%s: no native result (%s)", l, clip(lastLines(out, 4), 400)))
+		case strings.Contains(line, "PASS"):
+			cov := ""
+			if j := strings.Index(line, "covered="); j >= 0 {
+				cov = line[j+8:]
+			}
+			found := false
+			for _, c := range strings.Split(cov, ",") {
+				if c == l {
+					found = true
+				}
+			}
+			if found {
+				okN++
+			} else {
+				fails = append(fails, fmt.Sprintf("%s: native run did not reach the cover (reached %s)", l, cov))
+			}
+		default:
+			fails = append(fails, fmt.Sprintf("%s: native run: %s", l, line))
+		}
+	}
+	return okN, fails
+}
+
+// replayRecorded re-runs a recorded counterexample: natively where possible,
+// and by deterministic engine re-execution of the decision sequence.
+func replayRecorded(dir string) int {
+	b, err := os.ReadFile(filepath.Join(dir, "vector.json"))
+	if err != nil {
+		fmt.Println("cannot read vector:", err)
+		return 2
+	}
+	var vec replayVector
+	json.Unmarshal(b, &vec)
+	P, _, _, err := LoadProgram(filepath.Join(verifDir, "harness"), []string{"./" + vec.Pkg})
+	if err != nil {
+		fmt.Println("load error:", err)
+		return 2
+	}
+	pkg := P.pkgs[P.modPath+"/"+vec.Pkg]
+	ctx := NewCtx()
+	s, err := NewSolver(ctx, "z3", 30000)
+	if err != nil {
+		fmt.Println(err)
+		return 2
+	}
+	defer s.Close()
+	spec := HarnessSpec{Pkg: vec.Pkg, Func: vec.Harness, Opts: vec.Opts}
+	spec.Opts.Trace = true
+	res := runPath(P, pkg, pkg.Func(vec.Harness), spec, &worker{ctx: ctx, solver: s}, vec.Decisions)
+	fmt.Printf("engine replay: outcome=%s %s\n", res.outcome, res.msg)
+	if res.viol != nil {
+		fmt.Printf("  %s %s: %s\n", res.viol.Kind, res.viol.Label, res.viol.Msg)
+		for _, l := range res.viol.Stack {
+			fmt.Println("    at", l)
+		}
+	}
+	if !(vec.Kind == "deadlock" || vec.Kind == "race" || vec.Opts.Schedule) {
+		out, _ := runNative(dir, vec.Pkg, []string{"VND_HARNESS=" + vec.Harness, "VND_REPLAY=" + filepath.Join(dir, "vector.json")})
+		fmt.Println("native replay output (tail):")
+		fmt.Println(lastLines(out, 15))
+	}
+	if res.outcome == "violation" {
+		fmt.Printf("VIOLATION property=%s replay=%s\n", vec.Property, dir)
+		return 1
+	}
+	return 0
+}
